@@ -21,6 +21,11 @@ type Pkg struct {
 	Salt string
 	// ExtraFiles: additional files in the package dir (name -> content)
 	ExtraFiles map[string]string
+	// Typeless: the package declares no defined type at all (no Anchor either) - only a function, a constant, a variable
+	// and whatever Aliases lists (aliases of predeclared types). Imported through ValueImports.
+	Typeless bool
+	// ValueImports: module-local import paths of Typeless packages (referenced as <pkg>.Value)
+	ValueImports []string
 }
 
 func (p Pkg) Path(mod string) string {
@@ -37,16 +42,32 @@ func (p Pkg) Source() string {
 		b.WriteString("// " + t + "\n")
 	}
 	fmt.Fprintf(&b, "package %s\n\n", p.Name)
-	if len(p.Imports) > 0 {
+	if len(p.Imports)+len(p.ValueImports) > 0 {
 		b.WriteString("import (\n")
 		for i, ip := range p.Imports {
 			fmt.Fprintf(&b, "\tdep%d %q\n", i, ip)
+		}
+		for i, ip := range p.ValueImports {
+			fmt.Fprintf(&b, "\tvdep%d %q\n", i, ip)
 		}
 		b.WriteString(")\n\n")
 		for i := range p.Imports {
 			fmt.Fprintf(&b, "var _ dep%d.Anchor\n", i)
 		}
+		for i := range p.ValueImports {
+			fmt.Fprintf(&b, "var _ = vdep%d.Value\n", i)
+		}
 		b.WriteString("\n")
+	}
+	if p.Typeless {
+		b.WriteString("const Limit = 3\n\nvar Value = Limit + 1\n\nfunc Compute() int { return Value }\n\n")
+		for _, a := range p.Aliases {
+			fmt.Fprintf(&b, "type %s = int\n\n", a)
+		}
+		if p.Salt != "" {
+			fmt.Fprintf(&b, "// salt %s\n", p.Salt)
+		}
+		return b.String()
 	}
 	b.WriteString("type Anchor struct{ N int }\n\n")
 	for i, t := range p.Types {
@@ -76,4 +97,9 @@ func (p Pkg) Write(m *fixture.Module) {
 }
 
 // TypeNames: defined types incl. Anchor.
-func (p Pkg) AllTypes() []string { return append([]string{"Anchor"}, p.Types...) }
+func (p Pkg) AllTypes() []string {
+	if p.Typeless {
+		return nil
+	}
+	return append([]string{"Anchor"}, p.Types...)
+}
